@@ -300,6 +300,15 @@ let codec_case (line : string) : string =
                    let o = dres_str (decode (mk_cfg owned_arms (parse_ztab tl) []) data) in
                    Printf.sprintf "b=%s ; o=%s" b o
                | [] -> failwith "decb")
+  | "dect" -> (match words rest with
+               | h :: tl ->
+                   (match bytes_of_hex h with
+                    | [] -> "err eof"
+                    | v :: r -> if int_of_n v <> 131 then "err tag" else
+                        (match parse (mk_cfg owned_arms (parse_ztab tl) []) (nat_of_int (List.length r + 2)) r with
+                         | POk (t, rest) -> Printf.sprintf "ok %s rest=%s" (term_str t) (hex_of_bytes rest)
+                         | PErr k -> "err " ^ dkind_str k))
+               | [] -> "err eof")
   | "conv" -> (match words rest with
                | [_ops; h] ->
                    (match decode (mk_cfg owned_arms [] []) (bytes_of_hex h) with
